@@ -1285,9 +1285,14 @@ impl Group for C08Onchain {
                             format!("{}/{}/{}/{}/{}", c.value, if tr.script_match { 1 } else { 0 }, if c.outbound { 1 } else { 0 }, c.push_msat, if c.real { 1 } else { c.nhc })
                         }
                     };
-                    format!("{}:{}:{}:{}:{}:{}", spec.outs[i].value, tr.path_len,
-                        match tr.can_spend { None => "e", Some(true) => "t", Some(false) => "f" },
-                        if tr.script_allow { 1 } else { 0 }, tr.xpub, ch)
+                    // the output goes to the model as its script descriptor with style, derivation path and allowlist: the
+                    // wallet facts (can_spend, script / xpub allowlisted) are computed by the Lean wallet model
+                    // (Model/Wallet.lean); `truth` stays the independent ground truth of the monitors
+                    let path = spec.opaths().get(i).cloned().unwrap_or_default();
+                    let mut al: Vec<String> = spec.cfg.allow.clone();
+                    al.extend(spec.cfg.xpubs.iter().map(|j| format!("x{}", j)));
+                    format!("{}:@{}~{}~{}~{}:{}", spec.outs[i].value, spec.cfg.style, path_str(&path),
+                        if al.is_empty() { "-".to_string() } else { al.join(",") }, spec.outs[i].desc.to_string(), ch)
                 }).collect();
                 Some(format!("tx {} {} {} {} {} {} {} {} {} {} {} {} {} {}",
                     if spec.ap == 0 { 0 } else if approver_approves(spec.ap) { 1 } else { 2 }, spec.cfg.max_feerate, if spec.cfg.dev { 1 } else { 0 }, bits, spec.now,
@@ -1378,7 +1383,9 @@ impl Group for C08Onchain {
 mod psbt;
 #[path = "c08_restart.rs"]
 mod restart;
+#[path = "c08_wallet.rs"]
+mod wallet;
 
 pub fn groups() -> Vec<Box<dyn Group>> {
-    vec![Box::new(C08Onchain), Box::new(psbt::C08Psbt), Box::new(restart::C08FeeRestart)]
+    vec![Box::new(C08Onchain), Box::new(psbt::C08Psbt), Box::new(restart::C08FeeRestart), Box::new(wallet::C08Wallet)]
 }
